@@ -174,6 +174,15 @@ def run_property(prop, tier, seed, replay=None):
             else:
                 extra[k] = v
 
+    if hasattr(mod, 'cross_shard') and not replay and results:
+        xv, info = mod.cross_shard(results)
+        for (k, what, details) in xv:
+            vcount[k] += 1
+            w = {'property': prop, 'key': k, 'what': what, 'case': None, 'seed': seed, 'tier': tier}
+            w.update(jsonable(details))
+            witnesses.append(w)
+        extra.update(info)
+
     # ---------------------------------------------------------------- verdict
     new_keys = [k for k in vcount if k not in open_keys]
     known_hit = [k for k in vcount if k in open_keys]
